@@ -275,3 +275,4 @@ def r16_4(ctx, facts):
     # "kept in the parse tree": with allow-unmatched the only carrier of unmatched text is the gap token of TokenBuffer::add
     from . import c14
     c14.gap_rules(ctx, facts, rule="R16.5")
+    c14.same_k_for_iterator_and_stream(ctx, facts)      # R14.6: a trailing gap needs the positioned end-of-input token
